@@ -120,6 +120,25 @@ def evaluate(case):
                            [("fourier_transform", (x2, y, xo), k), ("fourier_transform", (x2, w * y, xo), dict(xmax=xmax, dy_in=dy))]):
             fails.append("fourier_transform(lorch=True): result depends on an earlier call of the same Transformer "
                          "(a grid with the same length and end points was transformed before)")
+    # the workflow object's Lorch step is such a transform: the window closes on the last datum handed to it, whatever transform window
+    # (Qmin/Qmax of the ingestion step) the object carries
+    if xmax is None and len(x) >= 3 and float(x.min()) > 0 and len(x) % 2 == 0:
+        from pystog import StoG
+        from .c12 import workdir
+        xs = np.sort(x)
+        for qm in (float(xs[-1]) + 0.37 * float(xs[-1] - xs[0]), float(xs[-2] + 0.4 * (xs[-1] - xs[-2]))):
+            with workdir():
+                st = StoG(**{"RealSpaceFunction": "G(r)", "Outputs": {"StemName": "c14"}})
+                st.qmax = qm
+                with np.errstate(all="ignore"):
+                    _, gl = st.apply_lorch(x, 1.0 + y, xo)
+            wq = weight(x, np.pi / float(x.max()))
+            _, gref, _ = t.F_to_G(x, wq * (x * y), xo)
+            scg = float(np.abs(x * y).max()) * float(x.max() - x.min()) + 1e-300
+            if relerr(np.asarray(gl, dtype=float), np.asarray(gref, dtype=float), scale=scg) > 1e-9:
+                fails.append(f"StoG.apply_lorch on an object with transform Qmax={qm!r} (data end at Q={float(x.max())!r}): the result differs from the plain "
+                             f"transform of data damped with a = pi/(last Q) by {relerr(np.asarray(gl, dtype=float), np.asarray(gref, dtype=float), scale=scg):.3g}")
+                break
     ft = case.get("fort")
     if ft:
         import fortran
